@@ -91,6 +91,9 @@ def generate(seed, tier):
         else:
             c = G.direct_case(rng, tier, di)
             c["id"] = f"d-{cs}"
+            if c.get("exact") and c.get("kind") != "const" and rng.random() < 0.5:
+                c["after_default"] = True
+                c["features"] = list(c.get("features", [])) + ["exact-after-default-in-one-process"]
             di += 1
         cases.append(c)
         i += 1
@@ -467,6 +470,16 @@ def run_direct(case, tier):
             except Exception as e:
                 res.update(verdict="inconclusive", reason="refused", refusal=P.refusal_key(e))
                 return res
+            if exact and case.get("after_default"):
+                # the same request in default (rounded) mode first, in the same process: the exact answer must not be
+                # served from anything the rounded one left behind
+                FA.exact_func_moments = False
+                try:
+                    FA.get_func_moment(distribution_factory(case["fam"], list(case["ps"])), dict(powers))
+                    res["events"]["same-request-in-default-mode-first"] = 1
+                except Exception:
+                    pass
+                FA.exact_func_moments = True
             try:
                 outcome = ("value", FA.get_func_moment(dist, dict(powers)))
             except Exception as e:
